@@ -390,6 +390,23 @@ func (fr *Frame) applyContract(ins ssa.Instruction, con *Contract, fn *ssa.Funct
 	if con.Trusted {
 		v.trustedUsed[con.Key] = con.TrustWhy
 	}
+	// assumptions the caller's contract attaches to this call (state-independent facts instantiated here)
+	if root := fr.rootFrame(); root != nil && root.con != nil && root.con.CallAssumes != nil {
+		short := con.Key[strings.LastIndex(con.Key, ".")+1:]
+		for _, ca := range root.con.CallAssumes[short] {
+			merged := map[string]Val{}
+			for k2, v2 := range root.envBase {
+				merged[k2] = v2
+			}
+			for k2, v2 := range vars {
+				merged[k2] = v2
+			}
+			env := &Env{fr: nil, vars: merged, cur: st, old: st, pkg: pkg}
+			t := v.evalBool(env, ca.Expr)
+			fr.ctx.assert(implies(reach, t), "ASSUMED at call of "+con.Key+" (listed in evidence): "+ca.Text)
+			v.note(root.objPfx + ": assumed at call of " + short + ": " + ca.Text)
+		}
+	}
 	// requires
 	for j, rq := range con.Requires {
 		env := &Env{fr: nil, vars: vars, cur: st, old: st, pkg: pkg}
